@@ -1,10 +1,11 @@
 SPECIFICATION ASpec
 CONSTANT MaxAuth = 2
-CONSTANT MaxLen = 3
+CONSTANT MaxLen = 2
 CONSTANT Rich = TRUE
 INVARIANT ATypeOK
 INVARIANT AStateAgrees
 INVARIANT AUnfilteredEverywhere
 INVARIANT ANoneMeansNoMay
+INVARIANT CacheIrrelevant
 INVARIANT AExport
 CHECK_DEADLOCK FALSE
